@@ -212,7 +212,6 @@ Proof.
     rewrite ufield32 by assumption. rewrite ufield32 by assumption. rewrite cthen_assoc. reflexivity.
   - (* vector *)
     apply andb_true_iff in Wa, Wb. destruct Wa as [Wa La], Wb as [Wb Lb].
-    unfold s_known in Ka, Kb. cbn [s_class1 s_class2 s_class3] in Ka, Kb. rewrite !orb_false_r in Ka, Kb.
     cbn [senc app swithin]. rewrite pfx_same. rewrite <- !app_assoc.
     pose proof (blen_nonneg l). pose proof (blen_nonneg l0).
     assert (Ul : wrap_u 32 (blen l) = blen l) by (apply wrap_u_small; lia).
@@ -221,9 +220,8 @@ Proof.
     destruct (Z.compare_spec (blen l) (blen l0)) as [EL|LL|GL]; cbn [cthen]; try reflexivity.
     apply vcomps_ord; try assumption. unfold blen in EL. lia.
   - (* json *)
-    unfold s_known in Ka, Kb. cbn [s_class1 s_class2 s_class3 orb] in Ka, Kb.
-    apply orb_false_iff in Ka, Kb.
-    cbn [senc swithin]. apply jenc_order; try assumption; split; tauto.
+    unfold s_known in Ka, Kb. cbn [s_class3] in Ka, Kb.
+    cbn [senc swithin]. apply jenc_order; assumption.
 Qed.
 
 Theorem senc_order a b : swf a = true -> swf b = true -> s_known a = false -> s_known b = false ->
